@@ -1372,7 +1372,12 @@ def run(chk):
                        "+ direct _parafac2_reconstruction_error calls; + loop-skeleton trace projections (counts) and event-level traces of parafac / non_negative_parafac / "
                        "non_negative_parafac_hals (MTTKRP modes, cp_normalize, shortcut / explicit error computations, callbacks) against Model/Errors.v:obs_of_trace.  "
                        "Every option that feeds into or sits next to an error expression (l2_reg, sparsity, masks, fixed modes, sparsity_coefficients, core_sparsity_coefficient, exact, "
-                       "constraint weights) occurs with a non-zero value in at least one configuration.  distinct key = (configuration, shape, data kind, k[, callback index])")
+                       "constraint weights) occurs with a non-zero value in at least one configuration.  distinct key = (configuration, shape, data kind, k[, callback index]).  "
+                       "+ direct cp_normalize / tucker_normalize calls against the executed models (validated tape of column norms); + direct error_calc calls where the model selects the branch; "
+                       "+ HOOI hypotheses (orthonormal factors, core = X x U^T) on every unmasked tucker / partial_tucker run; + recorded-value counts of the one-value-per-iteration loops; "
+                       "+ parafac2 event-level traces; + class API (fit_transform: errors_ vs decomposition_); + tensor_ring_als_sampled with the exact error; "
+                       "+ static ast tie (harness/props/C06_ast.py: 11 generated goals re-proved by coqc).  Thorough: every shape, data kind rotating, all prefix lengths judged by the "
+                       "Python predicates, Coq cases for the first, third and longest prefix of each run family")
     for b in broken:
         chk.broken.append({"what": "correspondence corr:C06 shard not evaluated", "detail": b})
     for i in sorted(failing):
@@ -1390,7 +1395,10 @@ def run(chk):
     chk.trusted = [                   "sparse components are the implementation's (returned, or sparsify_tensor on the imputed residual in the direct error_calc cases)",
                    "line-search decisions are read from the verbose output of parafac / parafac2 (used for coverage histograms and to steer the extra line-search seeds only)",
                    "event logs are taken by temporarily rebinding unfolding_dot_khatri_rao / cp_normalize / error_calc / cp_norm in tensorly.decomposition._cp and _nn_cp (harness side; skipped and counted if a name is missing)",
-                   "Q / dyadic execution of the model stands for the ring-regime model on rational inputs; KCPfast and KParafac2 re-check shortcut == residual exactly on each instance"]
+                   "Q / dyadic execution of the model stands for the ring-regime model on rational inputs; KCPfast and KParafac2 re-check shortcut == residual exactly on each instance",
+                   "column norms handed to the executed cp_normalize / tucker_normalize models are computed by the harness (numpy) and validated by squaring inside Coq (1e-9 relative)",
+                   "parafac2 event logs are taken by rebinding _compute_projections / parafac / non_negative_parafac_hals / _parafac2_reconstruction_error / cp_normalize in tensorly.decomposition._parafac2",
+                   "the ast tie trusts Python's ast module and the hand-written translator harness/props/C06_ast.py (arithmetic + - * ** 2, comparisons of `iteration`, statement order)"]
     return chk.finish(CLASSIFIERS)
 
 
